@@ -859,8 +859,6 @@ def main(ctx):
     def m_check(kind, op, res):
         if op[0] == "scribble":
             return None
-        if op[0] == "bad":
-            return "a match with ra and dec of different length was accepted"
         s1, r, mm = op
         p1, p2 = subset(s1, gen), subset(MK[kind][1], gen)
         bad = verify(tuple(res), Truth(p1, p2, np.full(len(p1), r)), mm)
@@ -872,7 +870,7 @@ def main(ctx):
         return [hm]
 
     object_world(ctx, "several-matchers", list(MK), m_new, MOPS, m_do, m_modules, depth=ctx.pick(3, 4),
-                 check=m_check, nodedup_depth=ctx.pick(3, 4), state=lambda h: (h.M.get_depth(), getattr(h.M, "__dict__", {}), h.ra2, h.dec2))
+                 check=m_check, must_raise=lambda kind, op: op[0] == "bad", nodedup_depth=ctx.pick(3, 4), state=lambda h: (h.M.get_depth(), getattr(h.M, "__dict__", {}), h.ra2, h.dec2))
 
 
 class _Fail(Exception):
